@@ -149,6 +149,47 @@ func (s *h) Observe() *seqmc.Fail {
 			return seqmc.Failf("Contains", "ContainsForward(%d)=%v ContainsReverse(%d)=%v, model %v", k, o.CF[i], k, o.CR[i], want)
 		}
 	}
+	// Range whose callback, at its first call, removes ANOTHER pair (RemoveForward, RemoveReverse, Clear):
+	// every visit must still be a pair the map really held during the call (key AND value), no key twice,
+	// and every pair that was not removed must be visited. (On a clone: Observe leaves s.b intact.)
+	if len(want) >= 2 {
+		for vi, victim := range want {
+			for how := 0; how < 3; how++ {
+				c := s.b.Clone()
+				var visits []pair
+				first := true
+				c.Range(func(k, v int) bool {
+					visits = append(visits, pair{k, v})
+					if first {
+						first = false
+						target := victim
+						if target.k == k {
+							target = want[(vi+1)%len(want)]
+						}
+						switch how {
+						case 0:
+							c.RemoveForward(target.k)
+						case 1:
+							c.RemoveReverse(target.v)
+						default:
+							c.Clear()
+						}
+					}
+					return true
+				})
+				seen := map[int]bool{}
+				for _, vp := range visits {
+					if mv, ok := s.model[vp.k]; !ok || mv != vp.v || seen[vp.k] {
+						return seqmc.Failf("Range:during-removal", "Range whose callback removes another pair visited %v; the map held %v: a visit that is no pair of the map, or a key twice", visits, want)
+					}
+					seen[vp.k] = true
+				}
+				if how < 2 && len(visits) < len(want)-1 {
+					return seqmc.Failf("Range:during-removal", "Range whose callback removes ONE other pair visited only %v of %v", visits, want)
+				}
+			}
+		}
+	}
 	// Range stops when told
 	for stop := 1; stop <= len(want); stop++ {
 		n := 0
